@@ -11,11 +11,15 @@ package main
 // already have been stored, or have no initialiser at all.
 
 import (
+	"encoding/json"
 	"fmt"
 	"go/constant"
 	"go/token"
 	"go/types"
+	"os"
+	"path/filepath"
 	"sort"
+	"strconv"
 	"strings"
 
 	"golang.org/x/tools/go/ssa"
@@ -291,6 +295,54 @@ func ruleTblName(p *Prog, r *Report, fd *folder, ms []*ssa.Function) {
 			default:
 				r.OK("TBLNAME", key, at, fmt.Sprintf("%d rows, each is what String returns for its value", len(rows)))
 			}
+		}
+	}
+}
+
+// ---- SUBTAG: the strip pointers carry their sub-directory names ------------------------------------------------------
+//
+// exif2/ifds.IfdType.TagName(id) is folded for the rows of spec/subifd_tag_names.json (directory, id, name — written
+// from the ExifTool tables): in the numbered sub-directories 0x0111/0x0117 are PreviewImageStart/Length, in SubIfd2
+// JpgFromRawStart/Length, 0x0116 stays RowsPerStrip, and IFD0 keeps the TIFF names.
+func ruleSubTag(p *Prog, r *Report, fd *folder) {
+	b, err := os.ReadFile(filepath.Join(r.verifDir, "spec", "subifd_tag_names.json"))
+	if err != nil {
+		r.Undecided("SUBTAG", "spec/subifd_tag_names.json", "-", err.Error())
+		return
+	}
+	var sp struct {
+		Rows [][3]string `json:"rows"`
+	}
+	if err := json.Unmarshal(b, &sp); err != nil {
+		r.Undecided("SUBTAG", "spec/subifd_tag_names.json", "-", err.Error())
+		return
+	}
+	f := p.Func("exif2/ifds", "IfdType", "TagName")
+	pk := p.LibPkg("exif2/ifds")
+	if f == nil || pk == nil {
+		r.Undecided("SUBTAG", "exif2/ifds.(IfdType).TagName", "-", "unresolved anchor")
+		return
+	}
+	for _, row := range sp.Rows {
+		key := fmt.Sprintf("exif2/ifds.(IfdType).TagName | %s %s = %q", row[0], row[1], row[2])
+		c, _ := pk.Types.Scope().Lookup(row[0]).(*types.Const)
+		id, perr := strconv.ParseInt(row[1], 0, 64)
+		if c == nil || perr != nil {
+			r.Undecided("SUBTAG", key, "-", "directory constant or id not resolved")
+			continue
+		}
+		dv, _ := constantInt64(c)
+		res := fd.fold(f, []cval{{kind: "int", i: dv}, {kind: "int", i: id}})
+		at := p.posStr(f.Pos())
+		switch {
+		case res.panics != "":
+			r.Bad("SUBTAG", key, at, "the lookup panics: "+res.panics)
+		case res.undecided != "":
+			r.Undecided("SUBTAG", key, at, "not foldable: "+res.undecided)
+		case res.val.s != row[2]:
+			r.Bad("SUBTAG", key, at, fmt.Sprintf("TagName gives %q", res.val.s))
+		default:
+			r.OK("SUBTAG", key, at, "folded name equals the table")
 		}
 	}
 }
